@@ -28,9 +28,20 @@ func VfC11_lockset() {
 	for _, c := range []string{"A", "B"} {
 		s.cs[c] = &clientState{params: &clientParams{ExpectElecID: true, Persist: true}, setParams: true, lastElecID: id}
 	}
-	s.curElecID, s.curMaster = id, "A"
+	// either session may be the primary (successive primaries can overlap in time)
+	s.curElecID, s.curMaster = id, vfIteStr(vfBool("primary-is-B"), "B", "A")
 	vfAddNH(s.masterRIB, DefaultNetworkInstanceName, 1)
 	vfAddNH(s.masterRIB, "VRF-A", 2)
+	// an unreferenced group and a referenced one, so that deletes / replaces reach the reference counters
+	for _, o := range []*spb.AFTOperation{
+		vfNHGOp(801, DefaultNetworkInstanceName, 1, 1, nil),
+		vfNHGOp(802, DefaultNetworkInstanceName, 2, 1, nil),
+		vfV4Op(803, DefaultNetworkInstanceName, "1.1.1.1/32", 2, nil),
+	} {
+		if oks, _, err := s.masterRIB.AddEntry(o.NetworkInstance, o); err != nil || len(oks) != 1 {
+			panic("cannot seed RIB")
+		}
+	}
 
 	// ONE role per path: the union over paths covers every handler, the product is never built
 	role := vfInt("role", 0, 6)
